@@ -273,6 +273,7 @@ type Interp struct {
 	Depth        int
 	MaxDepth     int
 	nextObj      int
+	MainVars     map[string]Value // variables of the main program body when it ended
 	handlerDepth int
 	Modules      map[string]*Program // importable modules (source known to the generator)
 	modCache     map[string]*modEnv
@@ -388,6 +389,12 @@ func (in *Interp) execBody(body []Stmt, catches []Catch, sc *scope, m *modEnv, t
 	}
 	inner := &scope{vars: map[string]*binding{}, parent: sc}
 	last, known, c := in.block(body, inner, fr, true)
+	if isProgram && m.name == "主模块" {
+		in.MainVars = map[string]Value{}
+		for n, b := range inner.vars {
+			in.MainVars[n] = b.v
+		}
+	}
 	if c != nil {
 		switch c.kind {
 		case ctlReturn:
@@ -577,12 +584,13 @@ func (in *Interp) stmt(s Stmt, sc *scope, fr *frame) (Value, bool, *ctl) {
 			}
 		}
 		run := func(k, val Value) (stop bool, c *ctl) {
+			// loop variables hold their own copy of the element (C07: copies on every binding)
 			switch len(v.Names) {
 			case 1:
-				isc.vars[v.Names[0]].v = val
+				isc.vars[v.Names[0]].v = Copy(val)
 			case 2:
 				isc.vars[v.Names[0]].v = k
-				isc.vars[v.Names[1]].v = val
+				isc.vars[v.Names[1]].v = Copy(val)
 			}
 			_, _, c = in.block(v.Body, &scope{vars: map[string]*binding{}, parent: isc}, fr, false)
 			if c != nil {
